@@ -14,58 +14,81 @@ import pyrx
 import vlib
 
 EXPLANATION = (
-    "The integrand weights of BoltzmannSolver.getDeltas, the nodal quadrature weights of "
-    "Polynomial.integrate, the momentum maps / Jacobians / cached-coordinate state machine "
-    "of Grid, the Polynomial operations getDeltas applies to deltaF and the summands of "
-    "EOM.deltaToTmunu are regenerated from the sources on every run; Coq proves, for every "
-    "grid size, scale history, mass, velocity and deviation: the four weights are "
-    "pp dpz dpp/(4 pi^2 E) times 1, pz^2, E^2, E pz (= d^3p/((2pi)^3 E) with the angle "
-    "integrated), the cached Jacobians are the derivatives of the cached momentum maps at "
-    "the CURRENT scale after any sequence of rescalings (rescaled grid = fresh grid), the "
-    "moments are the Gauss-Chebyshev-Lobatto sums and are linear in deltaF, T30/T33 "
-    "assembled from them equal the sum of p^mu p^nu deltaF boosted with gamma(1,v), every "
-    "weight multiplication acts on nodal values for both solver bases, and the rule is "
-    "exact on sqrt(1-x^2) * (combination of U_0..U_{2n-3}): the double sum equals the product "
-    "of the integrals int_0^pi sin^2 t q(cos t) dt (proved, is_RInt); only the substitution "
-    "x = cos t to the dx form is an explicit premise, validated numerically. "
-    "Model values are compared with the implementation by certified interval evaluation and "
-    "the property itself is evaluated on the implementation with closed-form oracles.")
+    "getDeltas is recognised statement by statement (anything outside the single-assignment "
+    "subset stops the translator); its integrand weights, the nodal quadrature weights of "
+    "Polynomial.integrate, the momentum maps / Jacobians / cached-coordinate state machine of "
+    "Grid, the structural facts that make Grid3Scales inherit it and Grid3Scales' own momentum "
+    "maps, the Polynomial operations applied to deltaF, plumbing facts (setBackground, "
+    "particle lists) and the summands of EOM.deltaToTmunu are regenerated from the sources on "
+    "every run. Coq proves, for every grid size, scale history, mass, velocity and deviation: "
+    "the four weights are pp dpz dpp/(4 pi^2 E) times 1, pz^2, E^2, E pz; the cached "
+    "Jacobians are the derivatives of the cached momentum maps at the CURRENT scale after any "
+    "history (also on Grid3Scales); E > 0 at every node for m^2 >= 0 and odd N; the moments "
+    "are the Gauss-Chebyshev-Lobatto sums, linear in deltaF; T30/T33 equal the sum of p^mu "
+    "p^nu deltaF boosted with gamma(1,v) whatever mass the caller evaluates; weight "
+    "multiplications act on nodal values; the rule is exact on sqrt(1-x^2) * (combination of "
+    "U_0..U_{2n-3}) and each generated moment of a deviation in the class (or a combination of "
+    "such) equals the product of the proved integrals int_0^pi sin^2 t q(cos t) dt. Model "
+    "values are compared with the implementation by certified interval evaluation; the "
+    "property is evaluated on the implementation with node data computed from the "
+    "definitions, object histories (grid rescalings, solver re-use, implicit deltaF), "
+    "massless species, and rounding bounds derived from the condition of each sum.")
 
 SRC_FILES = ("grid.py", "polynomial.py", "boltzmann.py", "equationOfMotion.py", "helpers.py")
-RTOL = 2e-10
 WEIGHTS = ("Delta00", "Delta02", "Delta20", "Delta11")
 
 
 # ------------------------------------------------------------------------------------
 # implementation-side helpers
 
-def make_particles(nspecies):
+MASSES = ("profile", "constant", "light", "massless", "halfwall")
+
+
+def make_particles(nspecies, nfields=1):
+    """species k has m^2 = g_k phi_0^2 (+ h_k phi_1^2 when the model has two fields): exactly
+    massless wherever the fields vanish (symmetric side of a wall)"""
     import WallGo
-    coup = [0.5, 0.11, 0.9][:nspecies]
-    dofs = [12, 9, 3][:nspecies]
+    coup = [0.5, 0.11, 0.9, 0.3, 0.7][:nspecies]
+    coup2 = [0.0, 0.4, 0.25, 0.0, 0.6][:nspecies]
+    dofs = [12, 9, 3, 6, 2][:nspecies]
     out = []
-    for k, (g, d) in enumerate(zip(coup, dofs)):
+    for k, (g, h, d) in enumerate(zip(coup, coup2, dofs)):
+        if nfields == 1:
+            msq = (lambda phi, g=g: g * phi.getField(0) ** 2)
+            dmsq = (lambda fields, g=g: np.transpose([2 * g * fields.getField(0)]))
+        else:
+            msq = (lambda phi, g=g, h=h: g * phi.getField(0) ** 2 + h * phi.getField(1) ** 2)
+            dmsq = (lambda fields, g=g, h=h: np.transpose(
+                [2 * g * fields.getField(0), 2 * h * fields.getField(1)]))
         out.append(WallGo.Particle(
-            name="p%d" % k, index=k,
-            msqVacuum=(lambda phi, g=g: g * phi.getField(0) ** 2),
-            msqDerivative=(lambda fields, g=g: np.transpose([2 * g * fields.getField(0)])),
+            name="p%d" % k, index=k, msqVacuum=msq, msqDerivative=dmsq,
             statistics="Fermion" if k % 2 == 0 else "Boson", totalDOFs=d))
     return out
 
 
-def make_background(M, mass):
+def make_background(M, mass, nfields=1, vshift=0.0):
     import WallGo
-    v = -np.ones(M + 1) / np.sqrt(3) + 0.01 * np.sin(np.arange(M + 1))
+    v = -np.ones(M + 1) / np.sqrt(3) + 0.01 * np.sin(np.arange(M + 1)) + vshift
+    x = np.linspace(-2, 2, M + 1)
     if mass == "constant":
         field = 80.0 * np.ones(M + 1)
     elif mass == "light":
-        field = 0.05 * (2 + np.tanh(np.linspace(-2, 2, M + 1)))
+        field = 0.05 * (2 + np.tanh(x))
+    elif mass == "massless":
+        field = np.zeros(M + 1)
+    elif mass == "halfwall":          # exactly massless on the symmetric half of the wall
+        field = 60.0 * np.maximum(0.0, np.tanh(x))
     else:
-        field = 60.0 * (1 + np.tanh(np.linspace(-2, 2, M + 1))) + 1.0
+        field = 60.0 * (1 + np.tanh(x)) + 1.0
+    cols = [field] if nfields == 1 else [field, 0.5 * field[::-1] if mass not in (
+        "massless", "halfwall") else 0.5 * field]
     return WallGo.BoltzmannBackground(
         velocityMid=0.5 * (v[0] + v[-1]), velocityProfile=v,
-        fieldProfiles=WallGo.Fields(field[:, None]),
+        fieldProfiles=WallGo.Fields(np.array(cols).T),
         temperatureProfile=100 * np.ones(M + 1))
+
+
+G3_DEFAULT = (2.5, 3.0, 1.0, 0.0)       # tailIn, tailOut, wallThickness, wallCenter
 
 
 def make_grid(kind, M, N, T0):
@@ -75,14 +98,36 @@ def make_grid(kind, M, N, T0):
     return WallGo.grid.Grid(M, N, 1.0, T0)
 
 
-def make_solver(grid, particles, bg, basisM, basisN):
+def apply_grid_op(grid, kind, op):
+    """op = ("T", newScale) | ("pos", k): the k-th non-default position rescaling"""
+    if op[0] == "T":
+        grid.changeMomentumFalloffScale(op[1])
+    elif kind == "Grid3Scales":
+        k = op[1]
+        grid.changePositionFalloffScale(2.5 + 0.7 * k, 3.0 + 0.4 * k, 1.0 + 0.1 * k,
+                                        0.05 * k - 0.1)
+    else:
+        grid.changePositionFalloffScale(1.0 + 0.5 * op[1])
+
+
+def history_of(cfg):
+    """list of grid operations of a configuration (old replays carry `scales` only)"""
+    if "hist" in cfg:
+        return [tuple(o) for o in cfg["hist"]]
+    return [("T", T) for T in cfg["scales"][1:]]
+
+
+def make_solver(grid, particles, bg, basisM, basisN, derivatives="Spectral", collisions=0.0,
+                seed=0):
     import WallGo
     from WallGo.collisionArray import CollisionArray
-    solver = WallGo.BoltzmannSolver(grid, basisM, basisN, "Spectral")
+    solver = WallGo.BoltzmannSolver(grid, basisM, basisN, derivatives)
     solver.updateParticleList(particles)
     solver.setBackground(bg)
     coll = CollisionArray(grid, basisN, particles)
-    coll.polynomialData.coefficients[...] = 0.0
+    c = coll.polynomialData.coefficients
+    c[...] = 0.0 if not collisions else collisions * np.random.default_rng(
+        seed).standard_normal(c.shape)
     solver.setCollisionArray(coll)
     return solver
 
@@ -148,64 +193,132 @@ def poly_int(c):
     return sum(ck * cheb_weight_moment(j) for j, ck in enumerate(c))
 
 
-def physical(grid, particles, bg):
+EPS = float(np.finfo(float).eps)
+# Rounding model of one evaluation: every node value carries a relative error of a few ulps
+# per floating-point operation of the chain (maps, Jacobians, weights, basis products), so the
+# computed moment differs from the exact sum by at most  C * eps * sum_nodes |weight|*bound(node)
+# where bound(node) >= |nodal value| is the sum of ABSOLUTE products of the basis changes
+# (this is the condition number of the quadrature sum times that of the basis change).
+# C_ROUND counts operations: ~12 per node for maps/weights + the lengths of the three
+# contractions; the factor 16 is the safety margin (measured: worst observed ratio < 1).
+def c_round(grid):
+    return 16.0 * (12 + grid.M + 2 * grid.N)
+
+
+def own_maps(T, rz, rp):
+    """the momentum maps and Jacobians written out from their definition
+    pz = 2 T atanh(rho_z), pp = -T ln((1 - rho_par)/2)"""
+    return (2 * T * np.arctanh(rz), -T * np.log((1 - rp) / 2),
+            2 * T / (1 - rz ** 2), T / (1 - rp))
+
+
+def physical(ctx, grid, particles, bg, case=None):
+    """node data computed HERE from the definitions; the grid's own cached arrays are
+    compared with them (an error in pz/pp would otherwise cancel out of the oracles)"""
     chi, rz, rp = grid.getCompactCoordinates()
-    _, pz, pp = grid.getCoordinates()
+    T = grid.momentumFalloffT
+    N = grid.N
+    pz, pp, dpz, dpp = own_maps(T, rz, rp)
+    _, gpz, gpp = grid.getCoordinates()
+    _, gdpz, gdpp = grid.getCompactificationDerivatives()
+    rz_want = -np.cos(np.arange(1, N) * np.pi / N)
+    rp_want = -np.cos(np.arange(0, N - 1) * np.pi / (N - 1))
+    for nm, mine, theirs in (("pzValues", pz, gpz), ("ppValues", pp, gpp),
+                             ("dpzdrz", dpz, gdpz), ("dppdrp", dpp, gdpp),
+                             ("rzValues", rz_want, rz), ("rpValues", rp_want, rp)):
+        theirs = np.asarray(theirs, dtype=float)
+        ctx.count("grid_arrays")
+        if theirs.shape != mine.shape or not np.all(
+                np.abs(theirs - mine) <= 64 * EPS * (np.abs(mine) + T * 1e-3)):
+            bad = int(np.argmax(np.abs(theirs - mine))) if theirs.shape == mine.shape else -1
+            ctx.fail_input(
+                "%s.%s[%d] = %r but the definition at momentumFalloffT=%g gives %r" % (
+                    type(grid).__name__, nm, bad, float(theirs[bad]) if bad >= 0 else None,
+                    T, float(mine[bad]) if bad >= 0 else None),
+                dict(kind="grid-arrays", case=case, which=nm),
+                key="grid-momentum-arrays:%s:%s" % (type(grid).__name__, nm))
     msq = np.array([p.msqVacuum(bg.fieldProfiles) for p in particles])[:, 1:-1, None, None]
     pz4 = pz[None, None, :, None]
     pp4 = pp[None, None, None, :]
     energy = np.sqrt(msq + pz4 ** 2 + pp4 ** 2)
-    return chi, rz, rp, pz4, pp4, energy
-
-
-def own_measure(grid, N, T0, rz, rp, pp4, energy):
-    """quadrature weight * Jacobian * measure written out from the definitions (plain
-    Grid maps: pz = 2 T atanh(rz), pp = -T ln((1-rp)/2)); independent of the cached arrays"""
-    wz = np.pi / N * np.sqrt(1 - rz ** 2) * 2 * T0 / (1 - rz ** 2)
-    wp = np.pi / (N - 1) * np.sqrt(1 - rp ** 2) * T0 / (1 - rp)
-    wp = wp.copy()
+    wz = np.pi / N * np.sqrt(1 - rz ** 2) * dpz
+    wp = np.pi / (N - 1) * np.sqrt(1 - rp ** 2) * dpp
     wp[0] *= 0.5
-    return wz[None, None, :, None] * wp[None, None, None, :] * pp4 / (4 * np.pi ** 2 * energy)
+    meas = wz[None, None, :, None] * wp[None, None, None, :] * pp4 / (4 * np.pi ** 2 * energy)
+    ws = dict(Delta00=np.ones_like(energy), Delta02=pz4 ** 2 * np.ones_like(energy),
+              Delta20=energy ** 2, Delta11=energy * pz4)
+    return types.SimpleNamespace(chi=chi, rz=rz, rp=rp, pz4=pz4, pp4=pp4, energy=energy,
+                                 msq=msq, meas=meas, ws=ws, T=T)
 
 
-def exact_family(grid, particles, bg, A, B, gz):
+def abs_bound(nodal_abs_or_coeffs, grid, basisM, basisN, is_coeffs):
+    """upper bound of |value at each node| through absolute basis products"""
+    if not is_coeffs:
+        return np.abs(nodal_abs_or_coeffs)
+    chi, rz, rp = grid.getCompactCoordinates()
+    out = np.abs(nodal_abs_or_coeffs)
+    if basisM == "Chebyshev":
+        out = np.einsum("in,anjk->aijk", np.abs(restricted_cheb(
+            chi, range(2, grid.M + 1), "full")), out)
+    if basisN == "Chebyshev":
+        out = np.einsum("jn,aink->aijk", np.abs(restricted_cheb(
+            rz, range(2, grid.N + 1), "full")), out)
+        out = np.einsum("kn,aijn->aijk", np.abs(restricted_cheb(
+            rp, range(1, grid.N), "partial")), out)
+    return out
+
+
+def exact_family(ph, grid, A, B, gz):
     """deviations (one per weight) whose integrand is
     T0^3/pi^2 sqrt(1-rz^2) A(rz) sqrt(1-rp^2) B(rp) g(chi), and the closed form"""
-    chi, rz, rp, pz4, pp4, energy = physical(grid, particles, bg)
-    T0 = grid.momentumFalloffT
-    rz4 = rz[None, None, :, None]
-    rp4 = rp[None, None, None, :]
+    T0 = ph.T
+    rz4 = ph.rz[None, None, :, None]
+    rp4 = ph.rp[None, None, None, :]
     with np.errstate(divide="ignore", invalid="ignore"):
-        base = (2 * energy * (1 - rz4 ** 2) * (1 - rp4 ** 2)
+        base = (2 * ph.energy * (1 - rz4 ** 2) * (1 - rp4 ** 2)
                 * np.sqrt((1 - rz4 ** 2) * (1 - rp4) ** 2 / (1 - rp4 ** 2))
                 / np.log(2 / (1 - rp4)))
     base = np.where(np.isfinite(base), base, 0.0)   # pp = 0 has zero measure
     base = base * np.polyval(A[::-1], rz4) * np.polyval(B[::-1], rp4)
-    g = gz(chi)[None, :, None, None]
-    ws = dict(Delta00=np.ones_like(energy), Delta02=pz4 ** 2 * np.ones_like(energy),
-              Delta20=energy ** 2, Delta11=energy * pz4)
-    closed = gz(chi) * poly_int(A) * poly_int(B) * T0 ** 3 / math.pi ** 2
-    meas = own_measure(grid, grid.N, T0, rz, rp, pp4, energy)
-    return {k: g * base / w for k, w in ws.items()}, closed, \
-        {k: meas * w for k, w in ws.items()}
+    g = gz(ph.chi)[None, :, None, None]
+    closed = gz(ph.chi) * poly_int(A) * poly_int(B) * T0 ** 3 / math.pi ** 2
+    return {k: g * base / w for k, w in ph.ws.items()}, closed
 
 
 def rand_poly(rng, deg):
     return [rng.randint(-8, 8) / 4.0 for _ in range(deg + 1)]
 
 
+def cfg_label(cfg):
+    return "%s M=%d N=%d basisM=%s basisN=%s mass=%s fields=%d species=%d %s hist=%s" % (
+        cfg["grid"], cfg["M"], cfg["N"], cfg["basisM"], cfg["basisN"], cfg["mass"],
+        cfg.get("nfields", 1), cfg["species"], cfg.get("derivatives", "Spectral")[:8],
+        [cfg["scales"][0]] + history_of(cfg))
+
+
 # ------------------------------------------------------------------------------------
 # direct validation
 
 def check_exact(ctx, cfg):
-    """moments of deviations in the exactness class vs closed forms; cfg describes grid
-    kind, M, N, scale history, bases, mass profile, polynomial degrees"""
+    """moments of deviations in the exactness class vs closed forms, after every step of the
+    grid's history (and against a fresh grid / a fresh solver)"""
     rng = ctx.rng
-    particles = make_particles(cfg["species"])
-    bg = make_background(cfg["M"], cfg["mass"])
-    scales = cfg["scales"]
-    grid = make_grid(cfg["grid"], cfg["M"], cfg["N"], scales[0])
-    solver = make_solver(grid, particles, bg, cfg["basisM"], cfg["basisN"])
+    nf = cfg.get("nfields", 1)
+    particles = make_particles(cfg["species"], nf)
+    bg = make_background(cfg["M"], cfg["mass"], nf)
+    grid = make_grid(cfg["grid"], cfg["M"], cfg["N"], cfg["scales"][0])
+    der = cfg.get("derivatives", "Spectral")
+    if cfg.get("rebackground"):
+        # production re-uses ONE solver: it saw another background (and produced moments for
+        # it) before the one under test is installed
+        other = make_background(cfg["M"], "constant" if cfg["mass"] != "constant" else
+                                "profile", nf, vshift=0.05)
+        solver = make_solver(grid, particles, other, cfg["basisM"], cfg["basisN"], der)
+        solver.getDeltas(np.ones((len(particles), cfg["M"] - 1, cfg["N"] - 1,
+                                  cfg["N"] - 1)))
+        solver.setBackground(bg)
+    else:
+        solver = make_solver(grid, particles, bg, cfg["basisM"], cfg["basisN"], der)
     N = cfg["N"]
     if "A" in cfg:                      # replay
         A, B = list(cfg["A"]), list(cfg["B"])
@@ -216,148 +329,308 @@ def check_exact(ctx, cfg):
         B[0] += 6.0
     gz = (lambda chi: (1 - chi ** 2) * (1 + 0.5 * chi))
     case = dict(cfg, A=A, B=B)
+    label = cfg_label(cfg)
     ok = True
-    for step, T in enumerate(scales):
-        if step:
-            grid.changeMomentumFalloffScale(T)
-        devs, closed, mw = exact_family(grid, particles, bg, A, B, gz)
+    hist = [None] + history_of(cfg)
+    for step, op in enumerate(hist):
+        if op is not None:
+            apply_grid_op(grid, cfg["grid"], op)
+        tag = "fresh" if not step else ("rescaled" if any(
+            o[0] == "T" for o in hist[1:step + 1]) else "repositioned")
+        ph = physical(ctx, grid, particles, bg, case)
+        devs, closed = exact_family(ph, grid, A, B, gz)
         fresh = None
         if step:
-            fgrid = make_grid(cfg["grid"], cfg["M"], N, T)
-            fresh = make_solver(fgrid, particles, bg, cfg["basisM"], cfg["basisN"])
+            fgrid = make_grid(cfg["grid"], cfg["M"], N, grid.momentumFalloffT)
+            fresh = make_solver(fgrid, particles, bg, cfg["basisM"], cfg["basisN"], der)
         for name in WEIGHTS:
             deltaF = to_solver_repr(devs[name], grid, cfg["basisM"], cfg["basisN"])
-            deltas = solver.getDeltas(deltaF).Deltas
+            handed = deltaF.copy()
+            res = solver.getDeltas(deltaF)
+            deltas = res.Deltas
             got = nodal_of(getattr(deltas, name))
             raw = np.asarray(getattr(deltas, name).coefficients, dtype=float)
             ctx.count("exact_class", dict(case, step=step, name=name),
-                      bucket="%s/%s/%s/N=%d%s" % (cfg["basisM"][:4], cfg["basisN"][:4],
-                                                  cfg["mass"], N,
-                                                  "/rescaled" if step else ""))
+                      bucket="%s/%s/%s/N=%d/%s" % (cfg["basisM"][:4], cfg["basisN"][:4],
+                                                    cfg["mass"], N, tag))
+            if not (np.array_equal(handed, deltaF) and res.deltaF is deltaF):
+                ok = False
+                ctx.fail_input("getDeltas changed / replaced the caller's deltaF [%s]" % label,
+                               dict(kind="exact", case=case, step=step, name=name),
+                               key="deltaF-not-passed-through")
             # the oracle is the closed form; the (tiny) error made by MY conversion of the
             # nodal values into spectral coefficients is accounted for exactly
+            mw = ph.meas * ph.ws[name]
             rep_err = from_solver_repr(deltaF, grid, cfg["basisM"], cfg["basisN"]) - devs[name]
-            want = closed[None, :] + np.sum(mw[name] * rep_err, axis=(2, 3))
-            relerr = np.abs(got - want) / np.abs(closed[None, :])
-            err = float(np.max(relerr))
-            if not err < RTOL:
-                a, i = np.unravel_index(np.argmax(relerr), got.shape)
+            want = closed[None, :] + np.sum(mw * rep_err, axis=(2, 3))
+            spectral = "Chebyshev" in (cfg["basisM"], cfg["basisN"])
+            bound = abs_bound(deltaF if spectral else devs[name], grid, cfg["basisM"],
+                              cfg["basisN"], spectral)
+            tol = c_round(grid) * EPS * np.sum(np.abs(mw) * bound, axis=(2, 3))
+            excess = np.abs(got - want) / tol
+            ctx.cov.setdefault("worst_rounding_ratio", 0.0)
+            if np.all(np.isfinite(excess)):
+                ctx.cov["worst_rounding_ratio"] = max(ctx.cov["worst_rounding_ratio"],
+                                                      float(np.max(excess)))
+            if not np.all(excess <= 1.0):
+                a, i = np.unravel_index(np.argmax(np.where(np.isfinite(excess), excess,
+                                                           np.inf)), got.shape)
                 ok = False
                 ctx.fail_input(
                     "%s(particle %d, z_%d) = %.12g but the momentum integral is %.12g "
-                    "[%s M=%d N=%d basisM=%s basisN=%s mass=%s scales=%s step %d]" % (
-                        name, a, i, got[a, i], closed[i], cfg["grid"], cfg["M"], N,
-                        cfg["basisM"], cfg["basisN"], cfg["mass"], scales, step),
+                    "(m^2 = %.6g there; allowed rounding %.3g) [%s step %d]" % (
+                        name, a, i, got[a, i], closed[i], float(ph.msq[a, i, 0, 0]),
+                        float(tol[a, i]), label, step),
                     dict(kind="exact", case=case, step=step, name=name,
                          got=float(got[a, i]), want=float(closed[i])),
-                    key="moment-not-integral:%s:%s" % (
-                        "rescaled" if step else "fresh", cfg["basisM"]))
+                    key="moment-not-integral:%s:%s%s" % (
+                        tag, cfg["basisM"], ":rebackground" if cfg.get("rebackground")
+                        else ""))
             # deltaToTmunu reads .coefficients as nodal values
-            if not np.allclose(raw, got, rtol=RTOL, atol=0):
+            if not np.all(np.abs(raw - got) <= tol):
                 ok = False
                 ctx.fail_input(
                     "returned %s.coefficients are not the nodal values (basis %s) "
-                    "[basisM=%s basisN=%s]" % (name, getattr(deltas, name).basis,
-                                               cfg["basisM"], cfg["basisN"]),
+                    "[%s]" % (name, getattr(deltas, name).basis, label),
                     dict(kind="not-nodal", case=case, step=step, name=name),
                     key="deltas-not-nodal:%s" % cfg["basisM"])
             if fresh is not None:
                 y = np.asarray(getattr(fresh.getDeltas(deltaF).Deltas, name).coefficients,
                                dtype=float)
                 ctx.count("rescaled_vs_fresh")
-                if not np.allclose(raw, y, rtol=RTOL, atol=0):
+                if not np.all(np.abs(raw - y) <= tol):
                     ok = False
                     ctx.fail_input(
-                        "%s on the grid rescaled %s differs from a fresh grid at T0=%g by "
-                        "a factor %.6g" % (name, scales[:step + 1], T,
-                                           np.ravel(raw)[0] / np.ravel(y)[0]),
+                        "%s on the grid with history %s differs from a fresh grid at T0=%g "
+                        "by a factor %.6g [%s]" % (name, hist[1:step + 1],
+                                                   grid.momentumFalloffT,
+                                                   np.ravel(raw)[0] / np.ravel(y)[0], label),
                         dict(kind="rescaled-vs-fresh", case=case, step=step, name=name),
                         key="rescaled-differs-from-fresh")
     return ok
 
 
-def check_generic(ctx, cfg):
-    """random deviation (NOT in the exactness class): moments vs the quadrature sums written
-    out from the definitions; linearity; deltaToTmunu vs boosted direct sums"""
+def real_eom(solver):
+    """an EOM object whose `particles` is bound as EOM.__init__ binds it (the generator
+    checks that statement); deltaToTmunu is then called as a bound method"""
     import WallGo
+    eom = object.__new__(WallGo.EOM)
+    eom.boltzmannSolver = solver
+    eom.particles = solver.offEqParticles
+    eom.grid = solver.grid
+    return eom
+
+
+def check_generic(ctx, cfg):
+    """random deviations (NOT in the exactness class) of widely different magnitudes: moments
+    vs the quadrature sums written out from the definitions; linearity, also through the
+    BoltzmannResults / BoltzmannDeltas arithmetic production uses; re-use of the solver with a
+    second background; deltaToTmunu (bound method) vs boosted direct sums"""
+    import WallGo
+    from WallGo import BoltzmannDeltas, Polynomial
+    from WallGo.results import BoltzmannResults
     rng = np.random.default_rng(ctx.rng.randint(0, 2 ** 31))
-    particles = make_particles(cfg["species"])
-    bg = make_background(cfg["M"], cfg["mass"])
+    nf = cfg.get("nfields", 1)
+    particles = make_particles(cfg["species"], nf)
+    bg = make_background(cfg["M"], cfg["mass"], nf)
     N, M = cfg["N"], cfg["M"]
-    T0 = cfg["scales"][-1]
-    grid = make_grid("Grid", M, N, cfg["scales"][0])
-    solver = make_solver(grid, particles, bg, cfg["basisM"], cfg["basisN"])
-    for T in cfg["scales"][1:]:
-        grid.changeMomentumFalloffScale(T)
-    chi, rz, rp, pz4, pp4, energy = physical(grid, particles, bg)
-    meas = own_measure(grid, N, T0, rz, rp, pp4, energy)
+    grid = make_grid(cfg["grid"], M, N, cfg["scales"][0])
+    der = cfg.get("derivatives", "Spectral")
+    solver = make_solver(grid, particles, bg, cfg["basisM"], cfg["basisN"], der)
+    for op in history_of(cfg):
+        apply_grid_op(grid, cfg["grid"], op)
+    case = dict(cfg, seed_note="numpy default_rng from ctx.rng")
+    label = cfg_label(cfg)
+    ph = physical(ctx, grid, particles, bg, case)
     P = len(particles)
     shape = (P, M - 1, N - 1, N - 1)
-    f = rng.standard_normal(shape)
-    g = rng.standard_normal(shape)
-    a, b = 1.75, -0.625
+    mag_f, mag_g = 10.0 ** rng.uniform(-6, 6, 2)
+    f = mag_f * rng.standard_normal(shape)
+    g = mag_g * rng.standard_normal(shape)
+    a, b = rng.choice([1.75, -0.625, 3e-5, -2e4], 2, replace=False)
+    spectral = "Chebyshev" in (cfg["basisM"], cfg["basisN"])
     ok = True
+    tag = "rescaled" if any(o[0] == "T" for o in history_of(cfg)) else "fresh"
 
-    def deltas_of(nodal):
-        return solver.getDeltas(to_solver_repr(nodal, grid, cfg["basisM"],
-                                               cfg["basisN"])).Deltas
-    Df, Dg, Dh = deltas_of(f), deltas_of(g), deltas_of(a * f + b * g)
-    ws = dict(Delta00=np.ones_like(energy), Delta02=pz4 ** 2 * np.ones_like(energy),
-              Delta20=energy ** 2, Delta11=energy * pz4)
-    direct = {k: np.sum(meas * w * f, axis=(2, 3)) for k, w in ws.items()}
-    case = dict(cfg, seed_note="numpy default_rng from ctx.rng")
+    def tol_for(nodal, name, phys):
+        cf = to_solver_repr(nodal, grid, cfg["basisM"], cfg["basisN"])
+        bound = abs_bound(cf if spectral else nodal, grid, cfg["basisM"], cfg["basisN"],
+                          spectral)
+        return cf, c_round(grid) * EPS * np.sum(np.abs(phys.meas * phys.ws[name]) * bound,
+                                               axis=(2, 3))
+
+    def compare(res, nodal, phys, what, keytag):
+        good = True
+        for name in WEIGHTS:
+            x = np.asarray(getattr(res.Deltas, name).coefficients, dtype=float)
+            direct = np.sum(phys.meas * phys.ws[name] * nodal, axis=(2, 3))
+            _, tol = tol_for(nodal, name, phys)
+            ctx.count("generic_sum", dict(case, name=name, what=what),
+                      bucket="%s/%s/%s" % (cfg["basisM"][:4], cfg["basisN"][:4], what))
+            if not np.all(np.abs(x - direct) <= tol):
+                good = False
+                i = np.unravel_index(np.argmax(np.abs(x - direct) / tol), x.shape)
+                ctx.fail_input(
+                    "%s%s = %.12g but sum of measure*weight*deltaF = %.12g (%s; m^2 = %.6g "
+                    "there) [%s]" % (name, tuple(int(t) for t in i), x[i], direct[i], what,
+                                     float(phys.msq[i[0], i[1], 0, 0]), label),
+                    dict(kind="generic", case=case, name=name, what=what),
+                    key="moment-not-sum:%s:%s%s" % (tag, cfg["basisM"], keytag))
+        return good
+    cf_f = to_solver_repr(f, grid, cfg["basisM"], cfg["basisN"])
+    cf_g = to_solver_repr(g, grid, cfg["basisM"], cfg["basisN"])
+    Rf, Rg = solver.getDeltas(cf_f), solver.getDeltas(cf_g)
+    Rh = solver.getDeltas(a * cf_f + b * cf_g)
+    f_rt = from_solver_repr(cf_f, grid, cfg["basisM"], cfg["basisN"])
+    ok &= compare(Rf, f_rt, ph, "first background", "")
+    # ---- linearity, directly and through the results arithmetic ---------------------------
+    Rc = a * Rf + b * Rg                     # BoltzmannResults.__rmul__/__add__
+    Rc2 = solver.getDeltas(Rc.deltaF)
     for name in WEIGHTS:
-        x = np.asarray(getattr(Df, name).coefficients, dtype=float)
-        scale = np.sum(np.abs(meas * ws[name] * f), axis=(2, 3))
-        ctx.count("generic_sum", dict(case, name=name),
-                  bucket="%s/%s" % (cfg["basisM"][:4], cfg["basisN"][:4]))
-        if not np.all(np.abs(x - direct[name]) <= 1e-9 * scale):
-            ok = False
-            i = np.unravel_index(np.argmax(np.abs(x - direct[name]) / scale), x.shape)
-            ctx.fail_input(
-                "%s%s = %.12g but sum of measure*weight*deltaF = %.12g [M=%d N=%d basisM=%s "
-                "basisN=%s scales=%s]" % (name, tuple(int(t) for t in i), x[i],
-                                          direct[name][i], M, N,
-                                          cfg["basisM"], cfg["basisN"], cfg["scales"]),
-                dict(kind="generic", case=case, name=name),
-                key="moment-not-sum:%s:%s" % (
-                    "rescaled" if len(cfg["scales"]) > 1 else "fresh", cfg["basisM"]))
-        xf, xg, xh = (np.asarray(getattr(D, name).coefficients, dtype=float)
-                      for D in (Df, Dg, Dh))
+        xf, xg, xh, xc, xc2 = (np.asarray(getattr(R.Deltas, name).coefficients, dtype=float)
+                               for R in (Rf, Rg, Rh, Rc, Rc2))
+        _, tf = tol_for(f_rt, name, ph)
+        _, tg = tol_for(from_solver_repr(cf_g, grid, cfg["basisM"], cfg["basisN"]), name, ph)
+        tol = 2 * (abs(a) * tf + abs(b) * tg)
         ctx.count("linearity")
-        if not np.all(np.abs(xh - (a * xf + b * xg)) <= 1e-9 * (
-                np.abs(a * xf) + np.abs(b * xg) + 1e-300)):
+        for what, lhs in (("getDeltas(a f + b g)", xh), ("(a R_f + b R_g).Deltas", xc),
+                          ("getDeltas((a R_f + b R_g).deltaF)", xc2)):
+            if not np.all(np.abs(lhs - (a * xf + b * xg)) <= tol):
+                ok = False
+                ctx.fail_input("%s: %s differs from a*%s(f) + b*%s(g) (a=%g, b=%g, |f|~%.1e, "
+                               "|g|~%.1e) [%s]" % (name, what, name, name, a, b, mag_f, mag_g,
+                                                   label),
+                               dict(kind="linearity", case=case, name=name, what=what),
+                               key="not-linear")
+    # the initial iterate of production: four Deltas sharing ONE zero polynomial
+    zero = Polynomial(np.zeros((P, M - 1)), grid, direction=("Array", "z"),
+                      basis=("Array", "Cardinal"))
+    R0 = BoltzmannResults(deltaF=np.zeros(shape), Deltas=BoltzmannDeltas(
+        Delta00=zero, Delta02=zero, Delta20=zero, Delta11=zero), truncationError=0.0,
+        linearizationCriterion1=np.zeros(P), linearizationCriterion2=np.zeros(P))
+    mult = 0.375
+    Rm = mult * Rf + (1 - mult) * R0
+    ctx.count("results_arithmetic")
+    for name in WEIGHTS:
+        xm = np.asarray(getattr(Rm.Deltas, name).coefficients, dtype=float)
+        xf = np.asarray(getattr(Rf.Deltas, name).coefficients, dtype=float)
+        if not (np.allclose(xm, mult * xf, rtol=8 * EPS, atol=0) and
+                np.all(zero.coefficients == 0)):
             ok = False
-            ctx.fail_input("%s is not linear in deltaF" % name,
-                           dict(kind="linearity", case=case, name=name),
-                           key="not-linear")
-    # T30 / T33
+            ctx.fail_input("%s of multiplier*R + (1-multiplier)*R0 is not multiplier*%s(R) "
+                           "(or the shared zero polynomial was modified) [%s]" % (
+                               name, name, label),
+                           dict(kind="generic", case=case, name=name, what="mixing"),
+                           key="results-mixing")
+    # ---- the same solver with a second background ---------------------------------------------
+    other_mass = MASSES[(MASSES.index(cfg["mass"]) + 1 + cfg["N"] // 2) % len(MASSES)]
+    if other_mass == cfg["mass"]:
+        other_mass = "profile" if cfg["mass"] != "profile" else "halfwall"
+    bg2 = make_background(M, other_mass, nf, vshift=-0.04)
+    solver.setBackground(bg2)
+    ph2 = physical(ctx, grid, particles, bg2, case)
+    R2 = solver.getDeltas(cf_f)
+    ok &= compare(R2, f_rt, ph2, "second background (%s) on the same solver" % other_mass,
+                  ":rebackground")
+    solver.setBackground(bg)
+    R3 = solver.getDeltas(cf_f)
+    for name in WEIGHTS:
+        if not np.array_equal(getattr(R3.Deltas, name).coefficients,
+                              getattr(Rf.Deltas, name).coefficients):
+            ok = False
+            ctx.fail_input("%s depends on the backgrounds the solver saw before [%s]" % (
+                name, label), dict(kind="generic", case=case, name=name, what="history"),
+                key="solver-history")
+    # ---- T30 / T33 through the bound method, mass taken at the CALLER's field point ------------
     vMid = cfg["v"]
     u0 = 1 / math.sqrt(1 - vMid ** 2)
     u3 = u0 * vMid
-    eom = types.SimpleNamespace(particles=particles)
-    p0 = u0 * energy + u3 * pz4
-    p3 = u3 * energy + u0 * pz4
+    eom = real_eom(solver)
+    p0 = u0 * ph.energy + u3 * ph.pz4
+    p3 = u3 * ph.energy + u0 * ph.pz4
     dofs = np.array([p.totalDOFs for p in particles])[:, None]
-    T30ref = np.sum(dofs * np.sum(meas * p3 * p0 * f, axis=(2, 3)), axis=0)
-    T33ref = np.sum(dofs * np.sum(meas * p3 * p3 * f, axis=(2, 3)), axis=0)
-    sc30 = np.sum(dofs * np.sum(meas * np.abs(p3 * p0 * f), axis=(2, 3)), axis=0)
-    sc33 = np.sum(dofs * np.sum(meas * np.abs(p3 * p3 * f), axis=(2, 3)), axis=0)
-    for index in range(M - 1):
-        fp = bg.fieldProfiles.getFieldPoint(index + 1)
-        T30, T33 = WallGo.EOM.deltaToTmunu(eom, index, fp, vMid, Df)
-        T30, T33 = float(np.ravel(T30)[0]), float(np.ravel(T33)[0])
-        ctx.count("tmunu", dict(case, index=index))
-        for nm, x, y, sc in (("T30", T30, T30ref[index], sc30[index]),
-                             ("T33", T33, T33ref[index], sc33[index])):
-            if not abs(x - y) <= 1e-9 * sc:
-                ok = False
-                ctx.fail_input(
-                    "%s(z_%d) = %.12g but the boosted direct sum of p^mu p^nu deltaF is "
-                    "%.12g [v=%g basisM=%s basisN=%s]" % (nm, index, x, y, vMid,
-                                                          cfg["basisM"], cfg["basisN"]),
-                    dict(kind="tmunu", case=case, index=index, which=nm, got=x, want=y),
-                    key="tmunu:%s:%s" % (nm, cfg["basisM"]))
+    for which, R, nodal, coef in (("getDeltas(f)", Rf, f_rt, 1.0),
+                                  ("a R_f + b R_g", Rc, None, None)):
+        if nodal is None:
+            nodal = from_solver_repr(Rc.deltaF, grid, cfg["basisM"], cfg["basisN"])
+        bound = abs_bound(to_solver_repr(nodal, grid, cfg["basisM"], cfg["basisN"])
+                          if spectral else nodal, grid, cfg["basisM"], cfg["basisN"], spectral)
+        if which != "getDeltas(f)":
+            bound = abs(a) * abs_bound(cf_f if spectral else f_rt, grid, cfg["basisM"],
+                                       cfg["basisN"], spectral) + \
+                abs(b) * abs_bound(cf_g if spectral else g, grid, cfg["basisM"],
+                                   cfg["basisN"], spectral)
+        T30ref = np.sum(dofs * np.sum(ph.meas * p3 * p0 * nodal, axis=(2, 3)), axis=0)
+        T33ref = np.sum(dofs * np.sum(ph.meas * p3 * p3 * nodal, axis=(2, 3)), axis=0)
+        # the code assembles T from the four moments with coefficients <= 3 u0^2 + ...
+        amp = 4 * (u0 + abs(u3)) ** 2
+        sc = amp * c_round(grid) * EPS * np.sum(dofs * np.sum(
+            np.abs(ph.meas) * (ph.energy ** 2 + ph.pz4 ** 2 + ph.msq) * bound,
+            axis=(2, 3)), axis=0)
+        for index in range(M - 1):
+            for src, fp in (("own", bg.fieldProfiles.getFieldPoint(index + 1)),
+                            ("other", bg2.fieldProfiles.getFieldPoint(
+                                (index + 2) % (M + 1)))):
+                T30, T33 = eom.deltaToTmunu(index, fp, vMid, R.Deltas)
+                T30, T33 = float(np.ravel(T30)[0]), float(np.ravel(T33)[0])
+                ctx.count("tmunu", dict(case, index=index, src=src, which=which))
+                msq_call = np.array([float(np.ravel(p.msqVacuum(fp))[0]) for p in particles])
+                extra = amp * c_round(grid) * EPS * float(np.sum(
+                    dofs[:, 0] * msq_call * np.sum(np.abs(ph.meas) * bound,
+                                                   axis=(2, 3))[:, index]))
+                for nm, x, y in (("T30", T30, T30ref[index]), ("T33", T33, T33ref[index])):
+                    if not abs(x - y) <= sc[index] + extra:
+                        ok = False
+                        ctx.fail_input(
+                            "%s(z_%d) = %.12g but the boosted direct sum of p^mu p^nu deltaF "
+                            "is %.12g [v=%g, Deltas of %s, mass at the %s field point; %s]" % (
+                                nm, index, x, y, vMid, which, src, label),
+                            dict(kind="tmunu", case=case, index=index, which=nm, got=x,
+                                 want=y), key="tmunu:%s:%s" % (nm, cfg["basisM"]))
+    return ok
+
+
+def check_implicit(ctx, cfg):
+    """the production call path: getDeltas() with NO argument on a solver with non-zero
+    collisions (solveBoltzmannEquations supplies deltaF); the moments must be the sums of the
+    deltaF that is returned with them"""
+    rng = np.random.default_rng(ctx.rng.randint(0, 2 ** 31))
+    nf = cfg.get("nfields", 1)
+    particles = make_particles(cfg["species"], nf)
+    bg = make_background(cfg["M"], cfg["mass"], nf)
+    grid = make_grid(cfg["grid"], cfg["M"], cfg["N"], cfg["scales"][0])
+    der = cfg.get("derivatives", "Spectral")
+    solver = make_solver(grid, particles, bg, cfg["basisM"], cfg["basisN"], der,
+                         collisions=1e-3, seed=int(rng.integers(1 << 30)))
+    for op in history_of(cfg):
+        apply_grid_op(grid, cfg["grid"], op)
+    case = dict(cfg, implicit=True)
+    label = cfg_label(cfg)
+    ph = physical(ctx, grid, particles, bg, case)
+    res = solver.getDeltas()
+    ctx.count("implicit_deltaF", case, bucket=der[:8])
+    if not np.all(np.isfinite(res.deltaF)):
+        ctx.log("implicit path: solveBoltzmannEquations returned non-finite deltaF", label)
+        return True
+    nodal = from_solver_repr(res.deltaF, grid, cfg["basisM"], cfg["basisN"])
+    spectral = "Chebyshev" in (cfg["basisM"], cfg["basisN"])
+    bound = abs_bound(res.deltaF if spectral else nodal, grid, cfg["basisM"], cfg["basisN"],
+                      spectral)
+    again = solver.getDeltas(res.deltaF)
+    ok = True
+    for name in WEIGHTS:
+        x = np.asarray(getattr(res.Deltas, name).coefficients, dtype=float)
+        direct = np.sum(ph.meas * ph.ws[name] * nodal, axis=(2, 3))
+        tol = c_round(grid) * EPS * np.sum(np.abs(ph.meas * ph.ws[name]) * bound, axis=(2, 3))
+        if not np.all(np.abs(x - direct) <= tol) or not np.array_equal(
+                x, getattr(again.Deltas, name).coefficients):
+            ok = False
+            i = np.unravel_index(np.argmax(np.abs(x - direct) / tol), x.shape)
+            ctx.fail_input(
+                "getDeltas() [no argument]: %s%s = %.12g but the sum over the returned deltaF "
+                "is %.12g [%s]" % (name, tuple(int(t) for t in i), x[i], direct[i], label),
+                dict(kind="implicit", case=case, name=name),
+                key="implicit-moment-not-sum:%s" % cfg["basisM"])
     return ok
 
 
@@ -367,11 +640,13 @@ def check_U_orthogonality(ctx, jmax):
     from scipy.integrate import quad
     from scipy.special import eval_chebyu
     for j in range(jmax + 1):
-        val, _ = quad(lambda t: math.sin(t) ** 2 * eval_chebyu(j, math.cos(t)), 0, math.pi,
-                      limit=400)
+        val, est = quad(lambda t: math.sin(t) ** 2 * eval_chebyu(j, math.cos(t)), 0, math.pi,
+                        limit=400, epsabs=1e-13, epsrel=1e-13)
         want = math.pi / 2 if j == 0 else 0.0
         ctx.count("hyp_U_orthogonality", dict(j=j))
-        if abs(val - want) > 1e-9:
+        # the integrand is a trigonometric polynomial bounded by 1: the adaptive rule's own
+        # error estimate (requested 1e-13) is the tolerance, with a floor of 1e-11
+        if abs(val - want) > max(100 * est, 1e-11):
             ctx.broken.append("hypothesis chebU_weight_integral fails numerically at j=%d "
                               "(%.3e)" % (j, val - want))
 
@@ -439,7 +714,7 @@ Ltac ev_hi := prep; interval with (i_prec 200).
 """
 
 
-def eval_case(ctx, idx, N, ops, coeffs, fieldval):
+def eval_case(ctx, idx, N, ops, coeffs, fieldval, kind="Grid"):
     """one certified-evaluation file: a real grid driven through `ops`, a bilinear nodal
     deviation with dyadic coefficients, all four moments of getDeltas"""
     M = 3
@@ -451,13 +726,20 @@ def eval_case(ctx, idx, N, ops, coeffs, fieldval):
         fieldProfiles=WallGo.Fields(np.full((M + 1, 1), float(fieldval))),
         temperatureProfile=100 * np.ones(M + 1))
     L0, T0 = ops[0][1], ops[0][2]
-    grid = WallGo.grid.Grid(M, N, float(L0), float(T0))
+    if kind == "Grid3Scales":
+        grid = WallGo.Grid3Scales(M, N, 2.5 + 3 * float(L0), 3.0 + 3 * float(L0), float(L0),
+                                  float(T0), 0.5)
+    else:
+        grid = WallGo.grid.Grid(M, N, float(L0), float(T0))
     terms, Tcur = [], T0
     for op in ops[1:]:
         if op[0] == "momentum":
             grid.changeMomentumFalloffScale(float(op[1]))
             terms.append("OpMomentum %s" % pyrx.rlit(op[1]))
             Tcur = op[1]
+        elif kind == "Grid3Scales":
+            apply_grid_op(grid, kind, ("pos", int(op[1])))
+            terms.append("OpPosition3")
         else:
             grid.changePositionFalloffScale(float(op[1]))
             terms.append("OpPosition %s" % pyrx.rlit(op[1]))
@@ -470,10 +752,8 @@ def eval_case(ctx, idx, N, ops, coeffs, fieldval):
     msq = Fraction(float(particles[0].msqVacuum(bg.fieldProfiles)[1]))
     # natural scale of each moment: the sum of the ABSOLUTE values of its terms (the result
     # itself may vanish by cancellation, e.g. Delta11 of a pz-even deviation)
-    _, rz_, rp_, pz4, pp4, energy = physical(grid, particles, bg)
-    meas = own_measure(grid, N, float(Tcur), rz_, rp_, pp4, energy)
-    ws = dict(Delta00=np.ones_like(energy), Delta02=pz4 ** 2 * np.ones_like(energy),
-              Delta20=energy ** 2, Delta11=energy * pz4)
+    ph = physical(ctx, grid, particles, bg, dict(certified=True, N=N))
+    meas, ws = ph.meas, ph.ws
     goals, rows, specs = [], [], []
     for name in WEIGHTS:
         y = float(getattr(D, name).coefficients[0, 0])
@@ -488,7 +768,7 @@ def eval_case(ctx, idx, N, ops, coeffs, fieldval):
                       *[pyrx.rlit(Fraction(x)) for x in coeffs],
                       *([pyrx.rlit(Tcur)] * 5))
     path = ctx.write("Cases/Eval_%d.v" % idx, hdr + "\n".join(goals) + "\n")
-    return path, dict(N=N, ops=[list(map(str, o)) for o in ops],
+    return path, dict(N=N, grid=kind, ops=[list(map(str, o)) for o in ops],
                       coeffs=[str(c) for c in coeffs], msq=str(msq), values=rows,
                       hdr=hdr, specs=specs)
 
@@ -578,39 +858,77 @@ Fixpoint lleqb (a b : list (list basis)) : bool :=
 # ------------------------------------------------------------------------------------
 
 def configs(ctx):
+    """Configurations of the direct validation.  The factors (basisN, history, degrees, mass,
+    grid class, solver re-use) cycle with co-prime periods so that none is aliased with
+    another; quick covers every pair (basisM, basisN) with and without a history."""
     rng = ctx.rng
     out = []
     Ns = [3, 5, 7, 11] if ctx.quick else [3, 5, 7, 9, 11, 13, 15, 17, 19, 21, 23, 25]
+    Ms = [3, 4, 6, 9, 20] if ctx.quick else [3, 5, 8, 12, 20, 35, 50]
     k = 0
-    for N in Ns:
+    for iN, N in enumerate(Ns):
         for basisM in ("Cardinal", "Chebyshev"):
             for basisN in ("Cardinal", "Chebyshev"):
+                bb = k % 4                            # index of the pair of bases
                 k += 1
-                mass = ("profile", "constant", "light")[k % 3] if ctx.quick or k % 2 else \
-                    "profile"
                 T1 = rng.choice([1.0, 40.0, 100.0, 130.0])
-                scales = [T1] if k % 2 else [T1, T1 * rng.choice([0.4, 2.5]),
-                                             rng.choice([85.0, 110.0])]
-                out.append(dict(grid="Grid3Scales" if k % 5 == 0 else "Grid",
-                                M=rng.choice([3, 4, 6, 9]), N=N, scales=scales,
-                                basisM=basisM, basisN=basisN, mass=mass,
-                                species=1 + k % 3, degA=2 * N - 3 if k % 2 else 2,
-                                degB=2 * (N - 1) - 3 if k % 3 else 2,
+                h = (bb + iN) % 3
+                if h == 0:
+                    hist = []
+                elif h == 1:
+                    hist = [("T", T1 * rng.choice([0.4, 2.5])), ("pos", 1 + k % 3),
+                            ("T", rng.choice([85.0, 110.0]))]
+                else:
+                    hist = [("pos", 2), ("T", T1 * rng.choice([0.3, 1.3, 7.0]))]
+                out.append(dict(grid="Grid3Scales" if (bb + iN) % 2 == 0 else "Grid",
+                                M=Ms[(bb + 3 * iN) % len(Ms)], N=N, scales=[T1], hist=hist,
+                                basisM=basisM, basisN=basisN,
+                                mass=MASSES[(bb + 2 * iN) % len(MASSES)],
+                                nfields=1 + ((bb + 3 * iN) % 4 == 3),
+                                species=1 + (bb + 2 * iN) % 3,
+                                rebackground=((7 * k) % 5 in (1, 3)),
+                                degA=2 * N - 3 if (bb // 2 + iN) % 2 == 0 else 2,
+                                degB=2 * (N - 1) - 3 if (bb + iN // 2) % 2 == 0 else 2,
                                 v=rng.choice([-0.55, -0.3, 0.2, 0.6, 0.9])))
+    # the finite-difference solver production uses for its error estimate (Cardinal only)
+    for N, mass in ((5, "halfwall"), (7, "profile")):
+        out.append(dict(grid="Grid3Scales", M=6, N=N, scales=[100.0], hist=[("pos", 1)],
+                        basisM="Cardinal", basisN="Cardinal", mass=mass, nfields=1,
+                        species=2, rebackground=True, degA=2 * N - 3, degB=2,
+                        derivatives="Finite Difference", v=0.4))
     if not ctx.quick:
         for _ in range(60):
             N = rng.choice(Ns)
             T1 = rng.choice([1.0, 40.0, 100.0, 250.0])
-            out.append(dict(grid=rng.choice(["Grid", "Grid", "Grid3Scales"]),
-                            M=rng.choice([3, 5, 8, 12]), N=N,
-                            scales=[T1] + [rng.choice([0.3, 2.0, 7.0]) * T1
-                                           for _ in range(rng.randint(0, 2))],
+            hist = []
+            for _ in range(rng.randint(0, 3)):
+                hist.append(rng.choice([("T", rng.choice([0.3, 2.0, 7.0]) * T1),
+                                        ("pos", rng.randint(1, 4))]))
+            out.append(dict(grid=rng.choice(["Grid", "Grid3Scales", "Grid3Scales"]),
+                            M=rng.choice(Ms), N=N, scales=[T1], hist=hist,
                             basisM=rng.choice(["Cardinal", "Chebyshev"]),
                             basisN=rng.choice(["Cardinal", "Chebyshev"]),
-                            mass=rng.choice(["profile", "constant", "light"]),
-                            species=rng.randint(1, 3), degA=rng.randint(0, 2 * N - 3),
+                            mass=rng.choice(MASSES), nfields=rng.choice([1, 1, 2]),
+                            species=rng.randint(1, 5), rebackground=rng.random() < 0.5,
+                            degA=rng.randint(0, 2 * N - 3),
                             degB=rng.randint(0, max(0, 2 * (N - 1) - 3)),
                             v=rng.choice([-0.9, -0.55, 0.1, 0.6, 0.95])))
+    return out
+
+
+def implicit_configs(ctx):
+    out = []
+    k = 0
+    for basisM, basisN, der in (("Cardinal", "Cardinal", "Spectral"),
+                                ("Chebyshev", "Chebyshev", "Spectral"),
+                                ("Cardinal", "Chebyshev", "Spectral"),
+                                ("Cardinal", "Cardinal", "Finite Difference")):
+        for M, N in ((5, 5),) if ctx.quick else ((5, 5), (12, 7), (25, 9)):
+            k += 1
+            out.append(dict(grid="Grid3Scales" if k % 2 else "Grid", M=M, N=N,
+                            scales=[100.0], hist=[("pos", 1), ("T", 85.0)] if k % 3 else [],
+                            basisM=basisM, basisN=basisN, mass=MASSES[k % len(MASSES)],
+                            nfields=1 + k % 2, species=1 + k % 3, derivatives=der, v=0.3))
     return out
 
 
@@ -618,7 +936,13 @@ def run(ctx):
     srcs = [vlib.read_src(f) for f in SRC_FILES]
     gen_ok, facts = True, None
     try:
-        text, spans, facts = gen_moments.generate(*srcs)
+        import os
+        package = {}
+        for fn_ in sorted(os.listdir(vlib.SRC)):
+            if fn_.endswith(".py"):
+                with open(os.path.join(vlib.SRC, fn_)) as fh:
+                    package[fn_] = fh.read()
+        text, spans, facts = gen_moments.generate(*srcs, package=package)
         ctx.write("MomentsGen.v", text, sources=dict(
             files={f: vlib.sha(s) for f, s in zip(SRC_FILES, srcs)}, spans=spans,
             facts=facts))
@@ -634,11 +958,11 @@ def run(ctx):
     if proved:
         try:
             rng = ctx.rng
-            specs = [(3, [("init", Fraction(1), Fraction(100))], 2.0),
+            specs = [(3, [("init", Fraction(1), Fraction(100))], 0.0, "Grid"),   # massless
                      (3, [("init", Fraction(2), Fraction(100)),
-                          ("momentum", Fraction(40)), ("position", Fraction(3))], 3.0),
-                     (5, [("init", Fraction(1), Fraction(64)),
-                          ("momentum", Fraction(130))], 1.0)]
+                          ("momentum", Fraction(40)), ("position", Fraction(3))], 3.0, "Grid"),
+                     (5, [("init", Fraction(1), Fraction(64)), ("position", Fraction(2)),
+                          ("momentum", Fraction(130))], 1.0, "Grid3Scales")]
             if not ctx.quick:
                 for _ in range(5):
                     ops = [("init", Fraction(rng.randint(1, 8), 2),
@@ -646,11 +970,12 @@ def run(ctx):
                     for _ in range(rng.randint(0, 3)):
                         ops.append(rng.choice([("momentum", Fraction(rng.randint(2, 400), 2)),
                                                ("position", Fraction(rng.randint(1, 9), 2))]))
-                    specs.append((rng.choice([3, 5, 5, 7]), ops, rng.choice([0.5, 2.0, 9.0])))
-            for idx, (N, ops, fv) in enumerate(specs):
+                    specs.append((rng.choice([3, 5, 5, 7]), ops, rng.choice([0.0, 0.5, 2.0, 9.0]),
+                                  rng.choice(["Grid", "Grid3Scales"])))
+            for idx, (N, ops, fv, gk) in enumerate(specs):
                 coeffs = [Fraction(rng.randint(-16, 16), 8) for _ in range(4)]
                 coeffs[0] += 3
-                path, info = eval_case(ctx, idx, N, ops, coeffs, fv)
+                path, info = eval_case(ctx, idx, N, ops, coeffs, fv, gk)
                 if idx == 0:
                     ctx.sample(dict(certified_eval={k: v for k, v in info.items()
                                                     if k not in ("hdr", "specs")}))
@@ -671,21 +996,28 @@ def run(ctx):
     for k, cfg in enumerate(cfgs):
         try:
             check_exact(ctx, cfg)
-            if k % (1 if not ctx.quick else 2) == 0:
+            if not ctx.quick or k % 2 == 0 or cfg.get("derivatives"):
                 check_generic(ctx, cfg)
         except Exception as ex:
             ctx.log("direct validation raised", json.dumps(cfg), traceback.format_exc())
-            ctx.fail_input("getDeltas/deltaToTmunu raised %r" % ex,
+            ctx.fail_input("getDeltas/deltaToTmunu raised %r [%s]" % (ex, cfg_label(cfg)),
                            dict(kind="raise", case=cfg), key="raises")
         if k == 0:
             ctx.sample(dict(direct=cfg))
+    for cfg in implicit_configs(ctx):
+        try:
+            check_implicit(ctx, cfg)
+        except Exception as ex:
+            ctx.log("implicit path raised", json.dumps(cfg), traceback.format_exc())
+            ctx.fail_input("getDeltas() raised %r [%s]" % (ex, cfg_label(cfg)),
+                           dict(kind="raise", case=dict(cfg, implicit=True)), key="raises")
     check_gcl(ctx, [3, 5, 7, 9, 11] if ctx.quick else list(range(3, 27, 2)))
     check_U_orthogonality(ctx, 20 if ctx.quick else 48)
     # ---- collect the certified evaluations ---------------------------------------------
     for idx, info, pr in procs:
         out, err = pr.communicate()
         for _ in info["values"]:
-            ctx.count("certified_eval", dict(N=info["N"], ops=info["ops"],
+            ctx.count("certified_eval", dict(N=info["N"], grid=info["grid"], ops=info["ops"],
                                              coeffs=info["coeffs"], k=_[0]))
         if pr.returncode != 0:
             ctx.log("certified evaluation Eval_%d did not go through at 80 bits; retrying "
@@ -696,10 +1028,12 @@ def run(ctx):
                 ctx.log("retry raised", traceback.format_exc())
                 ctx.broken.append("correspondence: retry of Eval_%d raised %r" % (idx, ex))
     ctx.cov["rule"] = (
-        "direct: every odd N in the tier's list x basisM x basisN, with mass profile "
-        "(constant / z-dependent / light), number of species, grid class, scale history "
-        "(fresh, or two in-place rescalings compared with a fresh grid), polynomial degrees "
-        "up to the exactness bound 2n-3; generic random deviations for sums/linearity/Tmunu; "
+        "direct: every odd N in the tier's list x basisM x basisN; mass family (z-dependent / "
+        "constant / light / massless / massless on half of the wall), fields, species, grid "
+        "class, M, history (none / T,pos,T / pos,T; compared with a fresh grid after every "
+        "step), solver re-use and polynomial degrees cycle with co-prime periods; generic "
+        "random deviations (1e-6..1e6) for sums / linearity / results arithmetic / second "
+        "background / Tmunu; implicit-deltaF path with collisions; FD solver; "
         "distinct = distinct configuration tuple; certified: grids driven through rescaling "
         "histories, all four moments by interval arithmetic")
     ctx.assumptions += [
@@ -707,7 +1041,10 @@ def run(ctx):
         "explicit premise of moments_exact_on_class_dx only; validated by adaptive "
         "quadrature for every j and through Polynomial.integrate against closed forms for "
         "every admissible degree)",
-        "E > 0 at every node (mass^2 > 0, or N odd so that pz != 0)"]
+        "m^2 >= 0 and N odd (then E > 0 at every node: massless_nodes_have_positive_energy)",
+        "rounding model of the direct checks: |computed - exact| <= 16 (12 + M + 2N) eps * "
+        "sum |weight| * (absolute basis products of the coefficients); the worst observed "
+        "ratio is recorded in the evidence (coverage.worst_rounding_ratio)"]
 
 
 def replay(rep):
@@ -719,12 +1056,23 @@ def replay(rep):
         print("FAILS:", what)
     ctx = types.SimpleNamespace(
         rng=__import__("random").Random(0), count=lambda *a, **k: None, quick=True,
-        fail_input=fail)
+        fail_input=fail, cov={}, log=print)
     case = rep.get("case")
     if rep.get("kind") in ("exact", "not-nodal", "rescaled-vs-fresh") and case:
         check_exact(ctx, case)
     elif rep.get("kind") in ("generic", "linearity", "tmunu") and case:
         check_generic(ctx, case)
+    elif rep.get("kind") == "implicit" and case:
+        check_implicit(ctx, case)
+    elif rep.get("kind") in ("raise", "grid-arrays") and case:
+        try:
+            if case.get("implicit"):
+                check_implicit(ctx, case)
+            elif "degA" in case:
+                check_exact(ctx, case)
+                check_generic(ctx, case)
+        except Exception as ex:                       # the recorded failure was a raise
+            fail("raised %r" % ex, None)
     elif rep.get("kind") == "gcl":
         check_gcl(ctx, [rep["N"]])
     print("replay: %d failing evaluations on the current tree" % len(fails))
